@@ -22,7 +22,7 @@ import (
 // bubble.  Reference model: per file a byte array plus a "fed for the current
 // version" bitmap, updated at every acknowledged Receive.
 
-func init() { register("C09", runC09) }
+func init() { register("C09", func(c *Ctx) { runC09(c); runC09Refail(c) }) }
 
 type c09Op struct {
 	File   int    `json:"file"`
